@@ -8,6 +8,7 @@ import traceback
 
 PID = "C04"
 LEVEL = "exploration"
+STRICT_WORKER_DEATH = True  # a crash of the worker is an observation about this property
 RULE = (
     "every construction of the C01/C02/C03 workloads (BV/Bool rule templates and random trees, FP pool products, "
     "string pool products) plus a hostile family (shift/rotate amounts 2^62..2^64 and >= width at widths up to 256, "
